@@ -27,11 +27,27 @@ class BuiltinMixin:
                 id(sorted): self.b_sorted, id(id): self.b_id, id(next): self.b_next,
                 id(filter): self.b_filter, id(setattr): self.b_setattr,
                 id(__import__("typing").cast): (lambda st, args, kwargs, node: [(st, args[1])]),
+                id(object.__new__): self.b_object_new,
             }
             h = getattr(self, "extra_builtin_models", None)
             if h:
                 self._bm.update(h())
         return self._bm
+
+    def b_object_new(self, st, args, kwargs, node):
+        """object.__new__(cls): a fresh object of class cls, no attributes of its own yet."""
+        (c,) = args
+        if isinstance(c, PyC) and isinstance(c.obj, type):
+            return [(st, SymObj(c.obj))]
+        lc = self.lift(c)
+        if lc.kind != "cls":
+            raise OutOfSubset("object.__new__ of a non-class value", node)
+        n = self.declare(fresh_name("newobj"), "Int")
+        st.assume(f"(and (>= {n} 1000000) (= (class_of {n}) (cid {asV(lc)})))", fact=True)
+        for other in self.escaped:
+            st.assume(f"(not (= {n} {other}))", fact=True)
+        self.escaped.append(n)
+        return [(st, Val(f"(v_obj {n})", kind="obj", fresh=TRUE))]
 
     # ---- simple ones
     def b_len(self, st, args, kwargs, node):
